@@ -239,7 +239,16 @@ func MapKeys[K comparable, V any](site string, m map[K]V) []K {
 		keys = append(keys, k)
 	}
 	s := cur.Load()
-	if s == nil || len(keys) < 2 {
+	if len(keys) < 2 {
+		return keys
+	}
+	if s == nil {
+		// a world without a scheduler may still put map order under the tape
+		if mo := mapOrder.Load(); mo != nil {
+			sort.Slice(keys, func(i, j int) bool { return fmt.Sprint(keys[i]) < fmt.Sprint(keys[j]) })
+			r := (*mo).Choose("maporder@"+site, len(keys))
+			return append(keys[r:], keys[:r]...)
+		}
 		return keys
 	}
 	sort.Slice(keys, func(i, j int) bool { return fmt.Sprint(keys[i]) < fmt.Sprint(keys[j]) })
@@ -258,4 +267,16 @@ func MapKeys[K comparable, V any](site string, m map[K]V) []K {
 	}
 	r := s.ch.Choose("maporder@"+site, len(keys))
 	return append(keys[r:], keys[:r]...)
+}
+
+var mapOrder atomic.Pointer[Chooser]
+
+// SetMapOrder lets a world that runs without a scheduler (single goroutine) decide the iteration
+// order of the rewritten map loops from its tape; nil restores the native order.
+func SetMapOrder(ch Chooser) {
+	if ch == nil {
+		mapOrder.Store(nil)
+		return
+	}
+	mapOrder.Store(&ch)
 }
